@@ -196,7 +196,7 @@ def build_fast(files, opts=None, stage="correlate"):
     return run
 
 
-def build(files, opts=None, stage="correlate", proj_body="", root=None, keep=False, settings_hook=None):
+def build(files, opts=None, stage="correlate", proj_body="", root=None, keep=False, settings_hook=None, cwd=None):
     """files: {relative path under the project root: text}. Sources conventionally under src/.
     opts: keyword arguments for ProjectSettings (typed values)."""
     _patch()
@@ -218,7 +218,8 @@ def build(files, opts=None, stage="correlate", proj_body="", root=None, keep=Fal
     buf = io.StringIO()
     cwd = os.getcwd()
     try:
-        os.chdir(run.root)
+        # FORD may be started from anywhere: the project file's directory (default) or `cwd`
+        os.chdir(cwd if cwd is not None else run.root)
         with contextlib.redirect_stdout(buf), contextlib.redirect_stderr(buf):
             try:
                 reset_state()
